@@ -123,7 +123,7 @@ pub struct CrashPlan {
 /// Share of the time budget a suite gets. Nested passes (crash inside recovery) spend
 /// their time where recovery itself writes: TTL generations to retire, tiny devices.
 fn suite_weight(prop: &str, nest: usize, name: &str) -> f64 {
-    if prop == "C02" {
+    if prop == "C02" || prop == "C03-deep" {
         // durability of acknowledged writes: the histories that need depth are overwrite /
         // delete chains with extent reuse; value shapes and the legacy formats add little
         return if ["ttl-reuse-v3", "crash-reuse-v3", "full4", "small", "core-v3"].iter().any(|k| name.contains(k)) {
@@ -137,9 +137,9 @@ fn suite_weight(prop: &str, nest: usize, name: &str) -> f64 {
     if nest == 0 {
         return 1.0;
     }
-    if ["ttl", "end5", "full4", "small"].iter().any(|k| name.contains(k)) {
+    if ["ttl", "end5", "full4", "small", "edge-v1"].iter().any(|k| name.contains(k)) {
         2.0
-    } else if ["uring", "core-v2", "edge", "evil"].iter().any(|k| name.contains(k)) {
+    } else if ["uring", "core-v2", "edge-v2", "evil"].iter().any(|k| name.contains(k)) {
         0.5
     } else {
         1.0
@@ -244,7 +244,7 @@ pub fn crash_check(prop: &str, suites: Vec<Suite>, accept: &[&str], plan: CrashP
         report.add("flushed_images_decoded", a.flushed_images);
         report.add("capped_epochs", a.stats.capped_epochs);
         per_suite.insert(
-            s.name.clone(),
+            format!("{}{}{}", s.name, if plan.sector_tear { "+tear" } else { "" }, if plan.nest > 0 { format!("+nest{}", plan.nest) } else { String::new() }),
             json!({
                 "config": s.cfg.name(), "alphabet": s.ops.len(), "depth_bound": s.depth, "depth_completed": r.max_depth_completed,
                 "complete": r.complete, "histories": a.paths, "crash_images": a.stats.images, "nested": a.stats.nested_images,
